@@ -250,7 +250,7 @@ impl SparseBinaryMatrix {
                   (r'#\[cfg\(debug_assertions\)\]\s*debug_indexed_column_valid: vec!\[true; width\],', '', 'cfg-debug-assertions-dropped'),
                   (r'let mut col_mapping = vec!\[0; width\];', 'let mut col_mapping: Vec<u16> = vec![0u16; width];', 'type-annotation'),
                   (r'let mut row_mapping = vec!\[0; height\];', 'let mut row_mapping: Vec<u32> = vec![0u32; height];', 'type-annotation'),
-                  (r'vec!\[0; height \* \(\(trailing_dense_column_hint - 1\) / WORD_WIDTH \+ 1\)\]', 'vec![0u64; height * ((trailing_dense_column_hint - 1) / WORD_WIDTH + 1)]', 'type-annotation'),
+                  (r'vec!\[0; height \* ', 'vec![0u64; height * ', 'type-annotation'),
                   (r'\b(row_mapping|col_mapping)\[(\w+)\] = ([^;]+);', r'\1.set(\2, \3);', 'S8-index-assign'),
                   (r'logical_row_to_physical: row_mapping\.clone\(\),', 'logical_row_to_physical: verif_clone_u32(&row_mapping),', 'S9-vec-clone'),
                   (r'logical_col_to_physical: col_mapping\.clone\(\),', 'logical_col_to_physical: verif_clone_u16(&col_mapping),', 'S9-vec-clone'),
